@@ -7,6 +7,8 @@ from hypothesis import strategies as st
 from vlib import stacks as S
 from vlib.core import Case, Facet, Refused, Violation
 
+# thorough-tier budgets of every facet are multiplied by this factor (sized for ~5-8 min on 16 cores)
+THOROUGH_SCALE = 6
 LEVEL = "exploration"
 RULE = ("spec = dataset stack (C02 generator; optionally topped by a harness *fused* wrapper declaring 1-2 groups of jointly "
         "loaded items with per-call nonces) + mode drawn as a sequence of 1-6 items over {x,class,aux,aux2,index,ctx.<key> "
